@@ -5,7 +5,7 @@ import sympy
 from lib import concolic
 from lib.symtrace import Gen, coq_expr, coq_type, input_pattern, sym_input
 from lib.corr import sym_num
-from lib.gens import log_uniform, rand_unit, angle as gen_angle, signed_mag
+from lib.gens import log_uniform, rand_unit, angle as gen_angle, signed_mag, rot_from_axis_angle
 
 concolic.install()
 from spatialmath import base, SO2, SE2, SO3, SE3, UnitQuaternion  # noqa: E402
@@ -22,6 +22,8 @@ class PathGen(Gen):
     def __init__(self, prop):
         super().__init__(prop)
         self.pcs = []          # (name, inputs, [coq atom])
+        self.extra_imports = ""   # e.g. fixed model files the wrappers below refer to
+        self.extra_defs = ""      # generated wrapper definitions around hand models (constants regenerated from the source)
 
     def trace(self, name, inputs, fn, **kw):
         t = super().trace(name, inputs, fn, **kw)
@@ -53,7 +55,8 @@ class PathGen(Gen):
         return t
 
     def coq_text(self):
-        out = [super().coq_text(), "\nSection PathConditions.\nContext {T : Type} (O : ops T).\n",
+        out = [super().coq_text().replace("From SM Require Import Base.Ops.\n", "From SM Require Import Base.Ops.\n" + self.extra_imports, 1),
+               "\nSection PathConditions.\nContext {T : Type} (O : ops T).\n",
                'Local Infix "+" := (add O). Local Infix "-" := (sub O). Local Infix "*" := (mul O). Local Infix "/" := (div O).\n']
         for name, inputs, atoms in self.pcs:
             binders = " ".join(f"({an} : {coq_type(sh)})" for an, sh in inputs)
@@ -63,6 +66,7 @@ class PathGen(Gen):
         out.append("End PathConditions.\n")
         for name, _, _ in self.pcs:
             out.append(f"Arguments pc_{name} {{T}} O.\n#[export] Hint Unfold pc_{name} : smgen.\n")
+        out.append(self.extra_defs)
         return "".join(out)
 
 
@@ -213,7 +217,52 @@ def build(ctx):
         g.trace(f'tr_SO3_pow{n}', [('X', 'M33')], (lambda n: lambda X: (S3(X) ** n).A)(n), sampler=lambda rng: [rnd_so3(rng)], tol=1e-9)
         g.trace(f'tr_SE3_pow{n}', [('X', 'M44')], (lambda n: lambda X: (E3(X) ** n).A)(n), sampler=lambda rng: [rnd_se3(rng)], tol=1e-9)
     build_sqrt(g)
+    build_interp(g, ctx)
     return g
+
+
+def slerp_threshold(ctx):
+    """T-const: the small-angle test of base.slerp must be `abs(theta) > K * _eps` (then: return q0); K is regenerated.
+    Fail-closed: any other shape of the test is reported (the hand model of C11_Interp.v then no longer mirrors the code)."""
+    import ast
+    import inspect
+    src = inspect.getsource(base.slerp)
+    tests = [ast.unparse(n.test) for n in ast.walk(ast.parse(src)) if isinstance(n, ast.If)]
+    import re
+    for t in tests:
+        m = re.fullmatch(r'abs\(theta\) > (\d+) \* _eps', t)
+        if m:
+            return int(m.group(1))
+    if ctx is not None:
+        ctx.fail('gen:slerp-skeleton', "base.slerp: the small-angle test is no longer `abs(theta) > K * _eps` "
+                 f"(tests found: {tests}); the slerp model of Model/C11_Interp.v used by C01_interp.v does not mirror the code", no_input=True)
+    return 10
+
+
+def s_slerp(rng):
+    """unit pair with relative quaternion angle log-uniform 1e-9 .. 3 (not inside the ulp-neighbourhood of the K*eps threshold), s grid"""
+    q0 = rand_unit(rng, 4)
+    th = float(rng.choice([0.0, log_uniform(rng, 1e-9, 3.0), log_uniform(rng, 1e-5, 0.2), rng.uniform(0, 3.0)]))
+    q1 = hamilton(q0, np.r_[math.cos(th), math.sin(th) * rand_unit(rng)])
+    if rng.random() < 0.3:
+        q1 = -q1
+    return [q0, q1, float(rng.choice([0.0, 1.0, 0.5, rng.uniform(0, 1), rng.uniform(0, 1), rng.uniform(0, 1)]))]
+
+
+def build_interp(g, ctx):
+    """interpolation: the hand model of base.slerp (Model/C11_Interp.v, fixed file owned by C11; the closure theorems of
+    Props/C01_interp.v are stated on it) with the threshold regenerated from the source, tied by T-num on every run"""
+    K = slerp_threshold(ctx)
+    g.extra_imports = "From SM Require Import Base.Lin Model.C11_Interp.\n"
+    g.extra_defs = (f"\n(* wrappers around the hand model Model/C11_Interp.v:slerp; slerp_k01 is read from the AST of base.slerp *)\n"
+                    f"Definition slerp_k01 : Z := {K}%Z.\n"
+                    "Definition m01_slerp_long {T} (O : ops T) (p q : V4 T) (s : T) : option (V4 T) := optres (slerp O (of_Z O slerp_k01) p q s false).\n"
+                    "Definition m01_slerp_short {T} (O : ops T) (p q : V4 T) (s : T) : option (V4 T) := optres (slerp O (of_Z O slerp_k01) p q s true).\n")
+    inputs = [('p', 'V4'), ('q', 'V4'), ('s', 'S')]
+    g.model('m01_slerp_long', inputs, 'O:V4', coq='m01_slerp_long', module='Model.C11_Interp',
+            num_fn=lambda p, q, s: base.slerp(p, q, s, shortest=False), sampler=s_slerp, tol=1e-9)
+    g.model('m01_slerp_short', inputs, 'O:V4', coq='m01_slerp_short', module='Model.C11_Interp',
+            num_fn=lambda p, q, s: base.slerp(p, q, s, shortest=True), sampler=s_slerp, tol=1e-9)
 
 
 def uq_raw(q):
@@ -369,6 +418,28 @@ class Oracle:
         self.check(site, kind, v, inputs, multi)
         return v
 
+    def report_raise(self, clsname, op, ex, kind, operands, replay):
+        """an operator / interpolator raised on the given operands: key by root cause (see docs/C01.md)"""
+        worst = max([self.check_value(k2 or kind, e)[0] for e, k2 in [(o if isinstance(o, tuple) else (o, None)) for o in operands]] + [0.0])
+        grade = 'valid-operands' if worst <= TOL else 'invalid-operands'
+        replay = dict(replay, op=op, operands_hex=[hexl(o[0] if isinstance(o, tuple) else o) for o in operands], operand_residual=worst)
+        rej = rejected_by_constructor(ex)
+        if rej is not None and grade == 'valid-operands':
+            # the operator built its result and handed it to a class constructor with check=True, which refused it
+            rres = max([self.check_value(kind, e)[0] for e in rej] + [0.0]) if len(rej) else float('inf')
+            if rres <= TOL:
+                key = 'oracle:revalidation:constructor-rejects-valid-operator-result'
+                what = (f"{clsname}.{op}: the result (validity residual {rres:.3g} <= 1e-9) of an operator on valid operands is "
+                        f"refused by the class constructor's strict re-validation -> {type(ex).__name__}")
+            else:
+                key = f'oracle:{clsname}.{op}:invalid-result-refused-by-constructor'
+                what = f"{clsname}.{op} on valid operands computes an INVALID value (residual {rres:.3g}) which the constructor then refuses"
+            self.ctx.fail(key, what, dict(replay, rejected_value=[np.asarray(e, dtype=float).tolist() for e in rej], rejected_residual=rres))
+            return
+        self.ctx.fail(f'oracle:raises:{raise_site(ex)}:{type(ex).__name__}:{grade}',
+                      f"{clsname} operator {op} raises {type(ex).__name__} ({str(ex)[:120]}) in {raise_site(ex)} on operands whose "
+                      f"validity residual is {worst:.3g}", replay)
+
     # ---- generators
     def ang(self, unit):
         a = gen_angle(self.rng)
@@ -483,8 +554,108 @@ class Oracle:
             self.call('SO2.Rand', 'R2', lambda: seeded(rng, lambda: SO2.Rand(N=3).data), [i], multi=True)
             self.call('SE2.Rand', 'T2', lambda: seeded(rng, lambda: SE2.Rand(N=3, xrange=(-1e6, 1e6)).data), [i], multi=True)
 
+    # ---- interpolation: every entry point, relative rotation angle LOG-uniform 1e-12 .. pi-1e-6 (every decade), s grid
+    def rel_angle(self):
+        r = self.rng.random()
+        if r < 0.8:
+            return log_uniform(self.rng, 1e-12, math.pi - 1e-6)
+        if r < 0.9:
+            return math.pi - log_uniform(self.rng, 1e-6, 1e-1)
+        return float(self.rng.uniform(0, math.pi - 1e-6))
+
+    def s_value(self):
+        return float(self.rng.choice([0.0, 1.0, 1e-12, 1 - 1e-12] + [self.rng.uniform(0, 1) for _ in range(6)]))
+
+    def icall(self, site, kind, clsname, fn, operands, inputs, multi=False):
+        """like call(), but a raise is keyed by root cause (operands: list of (value, kind))"""
+        try:
+            v = fn()
+        except Exception as ex:
+            self.ctx.count('oracle:' + site)
+            self.report_raise(clsname, 'interp', ex, kind, operands, {'site': site, 'inputs_hex': hexl(inputs)})
+            return None
+        self.check(site, kind, v, inputs, multi)
+        return v
+
+    def interpolation(self, N):
+        rng = self.rng
+        for i in range(N):
+            th, s = self.rel_angle(), self.s_value()
+            sv = [self.s_value() for _ in range(3)]
+            ax = rand_unit(rng)
+            dq = np.r_[math.cos(th / 2), math.sin(th / 2) * ax]
+            # ---- quaternions: q1 = q0 * dq, same hemisphere; also the other sign of q1 with shortest=True
+            q0 = rand_unit(rng, 4)
+            q1 = hamilton(q0, dq)
+            q1 /= np.linalg.norm(q1)
+            inp = np.r_[q0, q1, s, th]
+            for sh in (False, True):
+                self.icall(f'slerp:shortest={sh}', 'Q', 'base', lambda: base.slerp(q0, q1, s, shortest=sh), [(q0, 'Q'), (q1, 'Q')], inp)
+            self.icall('slerp:other-sign:shortest=True', 'Q', 'base', lambda: base.slerp(q0, -q1, s, shortest=True), [(q0, 'Q'), (q1, 'Q')], inp)
+            U0, U1 = uq_raw(q0), uq_raw(q1)
+            for sh in (False, True):
+                self.icall(f'UnitQuaternion.interp:dest:shortest={sh}', 'Q', 'UnitQuaternion', lambda: U0.interp(s, dest=U1, shortest=sh).data,
+                           [(q0, 'Q'), (q1, 'Q')], inp, multi=True)
+                self.icall(f'UnitQuaternion.interp:shortest={sh}', 'Q', 'UnitQuaternion', lambda: uq_raw(dq).interp(s, shortest=sh).data,
+                           [(dq, 'Q')], np.r_[dq, s, th], multi=True)
+            # ---- 3-D poses: T1 = T0 * (rotation by th), translations up to 1e6
+            T0 = np.eye(4)
+            T0[:3, :3], T0[:3, 3] = rnd_so3(rng), self.trans(3)
+            T1 = np.eye(4)
+            T1[:3, :3], T1[:3, 3] = T0[:3, :3] @ rot_from_axis_angle(ax, th), self.trans(3)
+            Tn = np.eye(4)
+            Tn[:3, :3], Tn[:3, 3] = rot_from_axis_angle(ax, th), self.trans(3)
+            inp = np.r_[T0.flatten(), T1.flatten(), s]
+            ops2 = [(T0, 'T3'), (T1, 'T3')]
+            self.icall('trinterp:se3:start', 'T3', 'base', lambda: base.trinterp(T0, T1, s), ops2, inp)
+            self.icall('trinterp:se3', 'T3', 'base', lambda: base.trinterp(None, Tn, s), [(Tn, 'T3')], np.r_[Tn.flatten(), s])
+            X0, X1, Xn = SE3(T0, check=False), SE3(T1, check=False), SE3(Tn, check=False)
+            self.icall('SE3.interp:start', 'T3', 'SE3', lambda: interp_checked(X1, s, X0).data, ops2, inp, multi=True)
+            self.icall('SE3.interp', 'T3', 'SE3', lambda: interp_checked(Xn, s).data, [(Tn, 'T3')], np.r_[Tn.flatten(), s], multi=True)
+            self.icall('SE3.interp:vector-s:start', 'T3', 'SE3', lambda: interp_checked(X1, sv, X0).data, ops2, np.r_[inp, sv], multi=True)
+            self.icall('SE3.interp:vector-s', 'T3', 'SE3', lambda: interp_checked(Xn, sv).data, [(Tn, 'T3')], np.r_[Tn.flatten(), sv], multi=True)
+            self.icall('SE3.interp:multi', 'T3', 'SE3', lambda: interp_checked(SE3([T1, Tn], check=False), s).data, ops2 + [(Tn, 'T3')], inp, multi=True)
+            # ---- 2-D poses
+            a0 = gen_angle(rng)
+            sgn = float(rng.choice([-1.0, 1.0]))
+            E0, E1, En = np.eye(3), np.eye(3), np.eye(3)
+            E0[:2, :2], E0[:2, 2] = rot2(a0), self.trans(2)
+            E1[:2, :2], E1[:2, 2] = rot2(a0) @ rot2(sgn * th), self.trans(2)
+            En[:2, :2], En[:2, 2] = rot2(sgn * th), self.trans(2)
+            inp = np.r_[E0.flatten(), E1.flatten(), s]
+            ops2 = [(E0, 'T2'), (E1, 'T2')]
+            self.icall('trinterp2:se2:start', 'T2', 'base', lambda: base.trinterp2(E0, E1, s), ops2, inp)
+            self.icall('trinterp2:se2', 'T2', 'base', lambda: base.trinterp2(None, En, s), [(En, 'T2')], np.r_[En.flatten(), s])
+            self.icall('trinterp2:so2:start', 'R2', 'base', lambda: base.trinterp2(E0[:2, :2], E1[:2, :2], s), [(E0[:2, :2], 'R2'), (E1[:2, :2], 'R2')], inp)
+            Y0, Y1, Yn = SE2(E0, check=False), SE2(E1, check=False), SE2(En, check=False)
+            self.icall('SE2.interp:start', 'T2', 'SE2', lambda: interp_checked(Y1, s, Y0).data, ops2, inp, multi=True)
+            self.icall('SE2.interp', 'T2', 'SE2', lambda: interp_checked(Yn, s).data, [(En, 'T2')], np.r_[En.flatten(), s], multi=True)
+            self.icall('SE2.interp:vector-s', 'T2', 'SE2', lambda: interp_checked(Yn, sv).data, [(En, 'T2')], np.r_[En.flatten(), sv], multi=True)
+            Z0, Zn = SO2(E0[:2, :2], check=False), SO2(En[:2, :2], check=False)
+            self.icall('SO2.interp', 'R2', 'SO2', lambda: interp_checked(Zn, s).data, [(En[:2, :2], 'R2')], np.r_[En[:2, :2].flatten(), s], multi=True)
+            self.icall('SO2.interp:start', 'R2', 'SO2', lambda: interp_checked(SO2(E1[:2, :2], check=False), s, Z0).data,
+                       [(E0[:2, :2], 'R2'), (E1[:2, :2], 'R2')], inp, multi=True)
+
     # ---- random expression trees through the classes
     def leaf(self, cls):
+        x = self.leaf0(cls)
+        if cls in (SE3, SE2, UnitQuaternion) and self.rng.random() < 0.25:
+            # an interpolated value as a leaf: towards a nearby member (relative angle log-uniform), interior s
+            th, s = self.rel_angle(), float(self.rng.uniform(0, 1))
+            try:
+                if cls is SE3:
+                    y = x * SE3.AngVec(th, rand_unit(self.rng))
+                    return interp_checked(y, s, x)
+                if cls is SE2:
+                    y = x * SE2(0, 0, th)
+                    return interp_checked(y, s, x)
+                y = x * UnitQuaternion.EulerVec(rand_unit(self.rng) * th)
+                return x.interp(s, dest=y, shortest=True)
+            except Exception:
+                return x      # raises of interp on valid operands are searched (and keyed) by interpolation()
+        return x
+
+    def leaf0(self, cls):
         rng = self.rng
         k = int(rng.integers(5))
         if cls is SO3:
@@ -544,7 +715,7 @@ class Oracle:
                 return cls([a.A, b.A, a.A], check=False).prod()
             return f"prod[{da}, {db}, {da}]", guarded('prod', (prod, lambda: (fa(), fb())))
         s = float(rng.choice([0.0, 1.0, 1e-12, 1 - 1e-12, rng.uniform(0, 1), rng.uniform(0, 1)]))
-        return f"interp({da}, {s.hex()})", guarded('interp', (lambda a: a.interp(s), lambda: (fa(),)))
+        return f"interp({da}, {s.hex()})", guarded('interp', ((lambda a: a.interp(s)) if cls is UnitQuaternion else (lambda a: interp_checked(a, s)), lambda: (fa(),)))
 
     def trees(self, N):
         for cls, kind in ((SO3, 'R3'), (SE3, 'T3'), (SO2, 'R2'), (SE2, 'T2'), (UnitQuaternion, 'Q')):
@@ -555,26 +726,7 @@ class Oracle:
                     v = f()
                 except OpRaises as ex:
                     self.ctx.count('oracle:' + site)
-                    worst = max([self.check_value(kind, e)[0] for a in ex.args_ for e in a.data] + [0.0])
-                    grade = 'valid-operands' if worst <= TOL else 'invalid-operands'
-                    rej = rejected_by_constructor(ex.ex)
-                    if rej is not None and grade == 'valid-operands':
-                        # the operator built its result and handed it to a class constructor with check=True, which refused it
-                        rres = max([self.check_value(kind, e)[0] for e in rej] + [0.0]) if len(rej) else float('inf')
-                        if rres <= TOL:
-                            key = 'oracle:revalidation:constructor-rejects-valid-operator-result'
-                            what = (f"{cls.__name__}.{ex.op}: the result (validity residual {rres:.3g} <= 1e-9) of an operator on valid operands is "
-                                    f"refused by the class constructor's strict re-validation -> {type(ex.ex).__name__}")
-                        else:
-                            key = f'oracle:{cls.__name__}.{ex.op}:invalid-result-refused-by-constructor'
-                            what = f"{cls.__name__}.{ex.op} on valid operands computes an INVALID value (residual {rres:.3g}) which the constructor then refuses"
-                        self.ctx.fail(key, what, {'site': site, 'op': ex.op, 'operands_hex': [hexl(e) for a in ex.args_ for e in a.data],
-                                                  'rejected_value': [np.asarray(e, dtype=float).tolist() for e in rej], 'rejected_residual': rres, 'tree': d})
-                        continue
-                    self.ctx.fail(f'oracle:raises:{raise_site(ex.ex)}:{type(ex.ex).__name__}:{grade}',
-                                  f"{cls.__name__} operator {ex.op} raises {type(ex.ex).__name__} ({str(ex.ex)[:120]}) in {raise_site(ex.ex)} on operands whose "
-                                  f"validity residual is {worst:.3g}",
-                                  {'site': site, 'op': ex.op, 'operands_hex': [hexl(e) for a in ex.args_ for e in a.data], 'operand_residual': worst, 'tree': d})
+                    self.report_raise(cls.__name__, ex.op, ex.ex, kind, [e for a in ex.args_ for e in a.data], {'site': site, 'tree': d})
                     continue
                 self.ctx.count('oracle:' + site)
                 for k, e in enumerate(v.data):
@@ -603,9 +755,31 @@ def raise_site(ex):
     return site
 
 
+class RefusedNone(Exception):
+    """a pose-class interp() handed its values to the constructor's list path with check=True, which silently stored None
+    for the elements it refused; .values are those refused matrices, recomputed with the base function"""
+    def __init__(self, values):
+        super().__init__('constructor stored None for a refused element')
+        self.values = values
+
+
+def interp_checked(obj, s, start=None):
+    """obj.interp(s, start) for SE3 / SE2 / SO2 objects; raises RefusedNone when the result holds None elements"""
+    r = obj.interp(s, start=start) if start is not None else obj.interp(s)
+    if any(e is None for e in r.data):
+        f = base.trinterp if obj.N == 3 else base.trinterp2
+        st = None if start is None else start.A
+        sl = list(np.atleast_1d(np.asarray(s, dtype=float)))
+        vals = [f(st, obj.A, s=_s) for _s in sl] if len(sl) > 1 else [f(st, x, s=sl[0]) for x in obj.data]
+        raise RefusedNone([v for v, e in zip(vals, r.data) if e is None])
+    return r
+
+
 def rejected_by_constructor(ex):
     """if the exception was raised inside SO2/SE2/SO3/SE3/UnitQuaternion.__init__ (the strict re-validation of an
     argument), return the list of elements that constructor was given; else None"""
+    if isinstance(ex, RefusedNone):
+        return ex.values
     tb, hit = ex.__traceback__, None
     while tb is not None:
         co = tb.tb_frame.f_code
@@ -641,15 +815,25 @@ def seeded(rng, f):
         np.random.set_state(state)
 
 
+def hamilton(p, q):
+    s1, v1, s2, v2 = p[0], p[1:], q[0], q[1:]
+    return np.r_[s1 * s2 - v1 @ v2, s1 * v2 + s2 * v1 + np.cross(v1, v2)]
+
+
+def rot2(a):
+    return np.array([[math.cos(a), -math.sin(a)], [math.sin(a), math.cos(a)]])
+
+
 def oracle(ctx):
     o = Oracle(ctx)
     with np.errstate(all='ignore'):
+        o.interpolation(ctx.n(1500, 40000))
         o.constructors(ctx.n(300, 4000))
         o.trees(ctx.n(600, 12000))
 
 
 def run(ctx):
-    ctx.rule = ("obligations: theorems/lemmas/examples of theories/Props/C01_ctor.v, C01_class.v, C01_sqrt.v, C01_ops.v over the traces regenerated "
+    ctx.rule = ("obligations: theorems/lemmas/examples of theories/Props/C01_ctor.v, C01_class.v, C01_sqrt.v, C01_ops.v, C01_interp.v over the traces regenerated "
                 "from /repo; evaluations: Sym==Num cases (generated model vs implementation) + oracle evaluations of the validity residuals "
                 "(max|RR'-I|, |det-1|, exact last row, | |q|-1 |, tolerance 1e-9) on every element returned by every constructor x option "
                 "and by random expression trees through the classes; a case is distinct by (site, element, inputs)")
@@ -661,8 +845,9 @@ def run(ctx):
         ctx.fail('gen:compile', 'generated traces do not compile: ' + err[-800:], no_input=True)
         return
     from concurrent.futures import ThreadPoolExecutor
-    files = ['theories/Props/C01_ctor.v', 'theories/Props/C01_class.v', 'theories/Props/C01_sqrt.v', 'theories/Props/C01_ops.v']
-    with ThreadPoolExecutor(4) as ex:
+    files = ['theories/Props/C01_ctor.v', 'theories/Props/C01_class.v', 'theories/Props/C01_sqrt.v', 'theories/Props/C01_ops.v',
+             'theories/Props/C01_interp.v']
+    with ThreadPoolExecutor(5) as ex:
         list(ex.map(ctx.prove, files))
     ctx.obligations.sort(key=lambda o: (o.file, 0))
     with ctx.timed('correspond'):
